@@ -120,6 +120,12 @@ def cases(tier, seed):
                 for rep in range(max(1, k // 2)):
                     N = [rng.choice((2, 3)) for _ in range(d)]
                     cs.append({'gen': 'neg', 'row': 'out-of-range', 'op': op, 'N': N, 'bad': bad, 'pos': rng.randrange(d)})
+    # an axis / mode / position argument of the wrong TYPE (a float - integral or not -, a digit string, a 0-d float tensor): no dense counterpart accepts these either
+    for op in ('sum', 'sum_list', 'cat_dim', 'cat_dim_single', 'mprod_mode', 'set_core_k', 'dot_axis'):
+        for d in (2, 3):
+            for bad in ('float', 'float-integral', 'neg-float', 'str', 'float-tensor'):
+                N = [rng.choice((2, 3)) for _ in range(d)]
+                cs.append({'gen': 'neg', 'row': 'wrong-type-axis', 'op': op, 'N': N, 'bad': bad, 'pos': rng.randrange(d)})
     # wrong index count / malformed index expressions
     for form in ('too-few', 'too-many', 'ellipsis-middle', 'two-ellipsis', 'bare-int-order>1', 'bare-slice-order>1', 'float-index', 'str-index', 'ttm-mixed-pair', 'ttm-ellipsis', 'ttm-odd-count', 'mask-wrong-columns'):
         for d in (2, 3):
@@ -128,7 +134,7 @@ def cases(tier, seed):
                 cs.append({'gen': 'neg', 'row': 'bad-index', 'form': form, 'N': N})
     # element-count mismatch, invalid permutations, size mismatches in argument lists
     for op in ('reshape', 'reshape_ttm_rows', 'reshape_ttm_cols', 'qtt_to_tens_sizes', 'qtt_to_tens_prefix_short', 'qtt_to_tens_prefix_short_rank1', 'qtt_to_tens_prefix_one_mode_rank1', 'qtt_to_tens_long', 'reshape_prefix_short', 'reshape_prefix_short_rank1', 'reshape_prefix_long', 'reshape_ttm_split', 'reshape_ttm_split_rank1', 'reshape_ttm_split_lead11', 'to_qtt_size3', 'to_qtt_size6', 'to_qtt_ttm_nonsquare', 'to_qtt_ttm_size3', 'permute_dup', 'permute_short', 'permute_long',
-               'mprod_size', 'mprod_lists', 'mprod_repeated_mode', 'cat_mode_mismatch_before', 'cat_mode_mismatch_after', 'cat_mode_mismatch_both', 'cat_order', 'pad_too_many', 'dot_axis_size', 'dot_axis_count', 'dot_b_longer',
+               'mprod_size', 'mprod_lists', 'mprod_repeated_mode', 'cat_mode_mismatch_before', 'cat_mode_mismatch_after', 'cat_mode_mismatch_both', 'cat_order', 'pad_too_many', 'dot_axis_size', 'dot_axis_count', 'dot_b_longer', 'dot_axis_duplicate', 'dot_axis_duplicate_rank1',
                'ctor_shape_numel', 'ctor_ttm_shape_numel', 'random_bad_R', 'set_core_rank', 'set_core_dims', 'mask_dense'):
         for rep in range(k):
             d = rng.choice((2, 3))
@@ -244,6 +250,22 @@ def build(case, g):
         }
         doc, f = table[op]
         return ('%s M=%s N=%s mismatch at %d by %d' % (op, M, N, p, dl), doc, f, (A,))
+    if r == 'wrong-type-axis':
+        N, bad, op, p = case['N'], case['bad'], case['op'], case['pos']
+        d = len(N)
+        k = {'float': p + 0.5, 'float-integral': float(p), 'neg-float': -0.5, 'str': str(p), 'float-tensor': torch.tensor(p + 0.5)}[bad]
+        x = mk(N, g)
+        y = mk(N, g)
+        b = mk([N[p]], g)
+        table = {
+            'sum': (ANY, lambda: x.sum(k)), 'sum_list': (ANY, lambda: x.sum([k, (p + 1) % d])),
+            'cat_dim': (ANY, lambda: tt.cat((x, y), k)), 'cat_dim_single': (ANY, lambda: tt.cat((x,), k)),
+            'mprod_mode': (ANY, lambda: x.mprod(torch.ones(2, N[p], dtype=torch.float64), k)),
+            'set_core_k': (ANY, lambda: x.set_core(k, torch.ones(tuple(x.cores[p].shape), dtype=torch.float64))),
+            'dot_axis': (ANY, lambda: tt.dot(x, b, [k])),
+        }
+        doc, f = table[op]
+        return ('%s with %s %r as axis/position, N=%s' % (op, bad, k, N), doc, f, (x,))
     if r == 'out-of-range':
         N, bad, op, p = case['N'], case['bad'], case['op'], case['pos']
         d = len(N)
@@ -336,6 +358,9 @@ def build(case, g):
             'dot_axis_size': (ANY, lambda: tt.dot(x, mk([N[p] + 1], g), [p])),
             'dot_axis_count': (ANY, lambda: tt.dot(x, mk([N[0]], g), [0, d - 1])),
             'dot_b_longer': (DOC, lambda: tt.dot(x, mk(N + [2], g), list(range(d)))),
+            # one mode named twice (b has two modes of that size): no dense contraction does that (defect #44: a rank-one b used to pass the guard)
+            'dot_axis_duplicate': (ANY, lambda: tt.dot(x, mk([N[p], N[p]], g), [p, p])),
+            'dot_axis_duplicate_rank1': (ANY, lambda: tt.dot(x, mk([N[p], N[p]], g, R=[1, 1, 1]), [p, p])),
             'ctor_shape_numel': (ANY, lambda: tt.TT(torch.ones(N, dtype=torch.float64), shape=Nb)),
             'ctor_ttm_shape_numel': (ANY, lambda: tt.TT(torch.ones(N + N, dtype=torch.float64), shape=[(a, b) for a, b in zip(Nb, N)])),
             'random_bad_R': (DOC, lambda: tt.random(N, [1] * d)),
